@@ -184,6 +184,13 @@ def schema_facts(schema):
                 facts["d41"] = True
             if _reaches_itself(p[1], tab):
                 facts["cycle"] = True
+    # the same finding one level down: an optional struct-typed member on a non-pointer field is always present on
+    # the way back, so a DISABLED property of the member object (required or not) is "in use" in the serialized
+    # form and Unserialize rejects it (thorough-tier case 4093: Root{in: ref XI}, XI{a: required, disabled})
+    if facts["unfaithful"]:
+        for o in _objects(schema):
+            if _head(o) in ("object", "xobject") and any(p[10] == "1" for _n, p in _props(o)):
+                facts["unfaithful_disabled"] = True
     return facts
 
 
